@@ -99,6 +99,47 @@ def hir_sites(F, targets, crate_prefix="riscv_analysis"):
     return out
 
 
+def known_return(F, p, at, who, depth=0):
+    """is the node named `who` at the HIR node `at` of fn `p` known to be a return? - it is reached only under `who.is_return()`
+    (`who` may be a clone of the tested name), or `who` is a parameter of a private function whose every caller passes such a node"""
+    from .p_parse import parent_map
+    f = F.fn(p)
+    body = f["hir"]["value"]
+    pm = parent_map(body)
+    lets = local_inits(body)
+    seen = 0
+    while who in lets and seen < 4:       # `let found_ret = Rc::clone(&node);`
+        nxt = ekey(lets[who]).lstrip("&*")
+        if nxt == who or not nxt.isidentifier():
+            break
+        who, seen = nxt, seen + 1
+
+    def says(c):
+        c = peel(c)
+        while c.get("k") in ("DropTemps", "Use"):
+            c = peel(c["e"])
+        if c.get("k") == "Binary" and c["op"] == "And":
+            return says(c["a"]) or says(c["b"])
+        return c.get("k") == "MethodCall" and c["name"] == "is_return" and not c["args"] and ekey(c["recv"]).lstrip("&*") == who
+    if any(want and says(c) for c, want in path_constraints(pm, at)):
+        return True
+    params = [q.get("name") if q.get("k") == "PBinding" else None for q in f["hir"].get("params", [])]
+    if who in params and depth < 2 and (f.get("vis") or "").startswith("Restricted"):
+        idx = params.index(who)
+        sites = hir_sites(F, {p})
+        if not sites:
+            return False
+        for q, c in sites:
+            allargs = ([c["recv"]] if c.get("k") == "MethodCall" else []) + list(c["args"])
+            if idx >= len(allargs):
+                return False
+            a = ekey(allargs[idx]).lstrip("&*")
+            if not a.isidentifier() or not known_return(F, q, c, a, depth + 1):
+                return False
+        return True
+    return False
+
+
 # ============================================================================ C03
 @rule("C03", "C03.a.edge-pairing", floor=6)
 def c03a(F, R):
@@ -149,7 +190,11 @@ def c03a(F, R):
                     R.ok(key, detail=f"{name}({x}) preceded by a loop removing {x} from every {side[:-1]}'s other side", where=loc(n))
                 else:
                     why = exempt("C03.a.edge-pairing", key)
-                    if why:
+                    if side == "nexts" and x.isidentifier() and known_return(F, p, n, x):
+                        # a return has no successors to unlink: NodeDirectionPass resets the fall-through after a return and a return has no
+                        # jump target (C11.a / C03.e decide that); a return rewired earlier is a jump by then (set_node) and is not a return
+                        R.ok(key, detail=f"{name}({x}) on a node that is known to be a return here (`is_return()` dominates): a return has no successors whose prevs would have to be fixed", where=loc(n))
+                    elif why:
                         R.ok(key, detail="exempt: " + why)
                     else:
                         R.bad(key, f"`{x}.{name}()` without removing `{x}` from the {'prevs' if side == 'nexts' else 'nexts'} of each node it pointed to", loc(n))
@@ -1194,6 +1239,9 @@ def c11d(F, R):
     """a function's exit is the first return found; every later return is rewired to it (paired edges) and set_exit is called once with it"""
     p = [q for q in F.fns if q.endswith("FunctionMarkupPass::mark_reachable")]
     f = F.fn(p[0])
+    # private helpers of the pass (`Self::redirect_return(&node, prev_ret)`) read as if their body stood at the call
+    body_, _inl = inline_self_helpers(F, f, p[0].rsplit("::", 1)[0] + "::")
+    f = dict(f, hir=dict(f["hir"], value=body_))
     # `returns = Some(node)` only in the else of `if let Some(ref prev_ret) = returns`
     loops0 = [lp for lp, _ in _reach_walk(f)]
     lv = loops0[0]["pat"]["name"] if loops0 and loops0[0]["pat"].get("k") == "PBinding" else None
